@@ -547,7 +547,7 @@ func ensurePath(r *rng, cur *jv) string {
 		case k < 93:
 			tok = encTok(r.pick(namePool))
 		default:
-			tok = r.pick([]string{"-1", "01", "+2"})
+			tok = r.pick([]string{"-1", "01", "+2", "0x1f", "0b101", "1_000", "1e3", "0o17", "0X1F"})
 		}
 		p += "/" + tok
 		at = nil
@@ -1041,6 +1041,28 @@ func streamCreate(r *rng, n int, pfx string) {
 			}
 		case 1: // mismatched roots
 			a, b = genValue(r, c, 0), genValue(r, c, 0)
+		case 2: // equal-length arrays whose elements are NOT all objects (arrays, scalars, nulls): to be rejected
+			k := 1 + r.n(3)
+			a, b = &jv{kind: kArr}, &jv{kind: kArr}
+			for j := 0; j < k; j++ {
+				var x *jv
+				switch r.n(4) {
+				case 0:
+					x = &jv{kind: kArr, arr: []*jv{genObj(r, c, 2)}}
+				case 1:
+					x = &jv{kind: kArr}
+				case 2:
+					x = genObj(r, c, 1)
+				default:
+					x = genValue(r, c, 1)
+				}
+				a.arr = append(a.arr, x)
+				if r.chance(1, 2) {
+					b.arr = append(b.arr, x.clone())
+				} else {
+					b.arr = append(b.arr, mutateValue(r, x, c))
+				}
+			}
 		default:
 			a = genObj(r, c, 0)
 			if r.chance(1, 8) {
